@@ -24,7 +24,7 @@ ASSUMPTIONS = [
     "results are compared structurally: strings, booleans, indices, node lists as pre-order positions, error lists as (code, message, "
     "node position)",
 ]
-REQUIRED = ["trees_deeper_than_recursion_limit", "imported_trees_with_default_namespace", "snapshots_compared", "second_pass_results_compared", "trees_needing_xml_escaping", "op:export.to_xml", "op:metapype_io.to_xml",
+REQUIRED = ["trees_with_a_node_listed_by_two_parents", "trees_with_unregistered_nodes", "trees_whose_ids_resolve_to_another_import", "trees_deeper_than_recursion_limit", "imported_trees_with_default_namespace", "snapshots_compared", "second_pass_results_compared", "trees_needing_xml_escaping", "op:export.to_xml", "op:metapype_io.to_xml",
             "op:validate.tree", "op:evaluate.tree", "op:Node.is_equal", "op:find_all_descendants", "op:metapype_io.to_json"]
 EXHAUSTIVE = {"quick": False, "thorough": False}
 
@@ -217,6 +217,36 @@ def judge(ctx, root, origin, deep=None):
     emlkit.discard(other)
 
 
+def with_history(ctx, rng, t, origin, k=None):
+    """The same tree after things a client can have done to it before asking a read-only question: a node that a second parent
+    lists too (so that its parent link names the other lister), nodes taken out of the registry while they stay in the tree, and a
+    second import of the same saved model (the ids then resolve to the other import)."""
+    nodes = snapshot.walk(t)
+    k = rng.randrange(3) if k is None else k
+    if k == 0 and len(nodes) > 1:
+        holders = []
+        for c in (rng.sample(nodes[1:], min(3, len(nodes) - 1)) if origin != "replay" else nodes[1:]):
+            h = Node("verifHolder")
+            h.add_child(c)
+            holders.append(h)
+        ctx.count("trees_with_a_node_listed_by_two_parents")
+        return t, origin + "+shared-node", holders
+    if k == 1:
+        for n in (rng.sample(nodes, min(4, len(nodes))) if origin != "replay" else nodes):
+            Node.delete_node_instance(n.id, children=False)
+        ctx.count("trees_with_unregistered_nodes")
+        return t, origin + "+unregistered", []
+    try:
+        j = metapype_io.to_json(t)
+        first = metapype_io.from_json(j)
+        second = metapype_io.from_json(j)
+    except Exception:
+        return t, origin, []
+    emlkit.discard(t)
+    ctx.count("trees_whose_ids_resolve_to_another_import")
+    return first, origin + "+imported-twice", [second]
+
+
 def needs_escaping(root):
     for n in snapshot.walk(root):
         for s in [n.content] + list(n.attributes.values()):
@@ -265,7 +295,11 @@ def run(ctx, params):
             ctx.count("imported_trees_with_default_namespace")
         if needs_escaping(t):
             ctx.count("trees_needing_xml_escaping")
+        extra = []
+        if rng.random() < 0.35:
+            t, origin, extra = with_history(ctx, rng, t, origin)
         ctx.case(judge, ctx, t, origin)
+        emlkit.discard(*extra)
         if i % 67 == 0:
             ctx.sample({"origin": origin, "root": t.name, "nodes": len(snapshot.walk(t))})
         emlkit.discard(t)
@@ -308,5 +342,9 @@ def replay(ctx, witness):
         return
     t = snapshot.from_plain(Node, witness["tree"])
     judge(ctx, t, witness.get("origin", "replay"))
+    if "+" in witness.get("origin", ""):
+        for k in range(3):
+            t, _o, _x = with_history(ctx, ctx.rng, snapshot.from_plain(Node, witness["tree"]), "replay", k)
+            judge(ctx, t, "replay")
     ctx.distinct(1)
     ctx.distinct(2)
